@@ -156,10 +156,13 @@ Proof.
   rewrite (filter_map_map reads_address_of reads_address_of rn rw) by apply (rn_reads_address_of s rho).
   replace (match option_map (map rw) pd with Some p => p | None => [] end)
     with (map rw (match pd with Some p => p | None => [] end)) by (destruct pd; reflexivity).
-  rewrite <- map_app, !dedup_names_rn0, <- !map_app, dedup_names_rn0.
+  assert (U : forall a b, union_names (map rw a) (map rw b) = map rw (union_names a b)).
+  { intros a b. unfold union_names. rewrite !map_length.
+    destruct (Nat.leb (length b) (length a)); rewrite <- map_app, dedup_names_rn0; reflexivity. }
+  rewrite <- map_app, !dedup_names_rn0, !U.
   rewrite (filter_map_comm (fun x => negb (mem_name (wv x) (filter_map label_of ns)))).
   2:{ intros x. cbn [map_w wv]. rewrite mem_name_rn. reflexivity. }
-  destruct (filter _ (dedup_names _ [])) as [|u us]; cbn [map]; [|reflexivity].
+  destruct (filter _ (union_names _ _)) as [|u us]; cbn [map]; [|reflexivity].
   pose proof (build_nodes_rn ns (dedup_names (filter_map calls_to ns ++ match pd with Some p => p | None => [] end) [])
                 pd [] [] true []) as B.
   cbn [map] in B. rewrite B. destruct (build_nodes ns _ pd [] [] true []); reflexivity.
